@@ -20,7 +20,7 @@
 // Every op prints one result line `r ...`; create() prints `new <oid> <object name> <uid> <euid>`.
 #include "/include/vcommon.h"
 #define REG "/c20/reg"
-#define RESERVED ({ "m", "se", "u1a", "u1b", "u1c", "u2a", "u2b", "u2c", "bba", "bbb", "bbc", "roota", "rootb", "rootc", "odda", "oddb", "oddc" })
+#define RESERVED ({ "m", "se", "u1i", "u1a", "u1b", "u1c", "u2a", "u2b", "u2c", "bba", "bbb", "bbc", "roota", "rootb", "rootc", "odda", "oddb", "oddc" })
 
 string oid;
 mixed bound_fp;     // bind(): the bound efun pointer the next load / clone op of this object has to use
@@ -178,6 +178,7 @@ string do_op (string s) {
   case "clone":
     if (member_array (w[1], RESERVED) != -1 || REG->get (w[1])) { r = "nobj"; break; }   // reserved or taken id
     if (!find_object (w[2]) && REG->get (bp_oid (w[2]))) { r = "nobj"; break; }
+    if (!find_object (w[2]) && w[2] == "/c20/u1/i") { r = "nobj"; break; }      // inheriting blueprints are loaded, not cloned unloaded
     e = catch (o = (bf ? evaluate (bf) : clone_object (w[2], w[1])));
     if (!e && o) r = o->my_oid ();
     break;
